@@ -25,7 +25,10 @@ MANIFEST = dict(
     text=("Proof: for every list of lines and every screen height >= 3 the Gallina print_widget (a line-by-line model of UIScreen._print_widget, "
           "Python integers and slices) prints every line exactly once in order (C12_paging_prints_all), as full pages of exactly H-2 lines each followed "
           "by one press-ENTER prompt and a last page of 1..H-2 lines without prompt (C12_paging_pages), consumes exactly (n-1)/(H-2) typed lines "
-          "(C12_paging_ask_count, _ceil, C12_paging_short_no_prompt) and its loop terminates (C12_paging_terminates); a window renders to its title lines, "
+          "(C12_paging_ask_count, _ceil, C12_paging_short_no_prompt) and its loop terminates (C12_paging_terminates); with the typed lines threaded through the same loop (print_widget_in) the run consumes exactly "
+          "the first (n-1)/(H-2) typed lines whatever they contain, leaves the rest untouched and writes the same stream (C12_paging_consumes_one_line_per_prompt, "
+          "C12_paging_output_independent_of_typed, C12_paging_in_agrees), and with fewer typed lines it blocks at a prompt after exactly the pages before it "
+          "(C12_paging_blocks_without_typed_line); a window renders to its title lines, "
           "one blank line and the concatenation of its items' own renders in the order added, separators being n blank lines (C12_window_titled, "
           "C12_window_untitled, C12_separator, C12_draw_appends, C12_show_all); after any sequence of prompt edits str(prompt) is the message followed by the "
           "bracketed list of exactly the currently defined options, strictly sorted by key in code-point order, each as 'k' desc joined by ', ' "
@@ -34,7 +37,9 @@ MANIFEST = dict(
           "including an end-to-end run of the real blocking input on a fake stdin."),
     note=("Trusted: Coq kernel; extraction; harness; CPython's print/list slicing/dict order/sorted on str/str.join/% formatting as modelled; "
           "textwrap chunking enters as a checked oracle; gettext without catalogue (identity).  A press-ENTER prompt is one call of "
-          "_ask_user_input_blocking; that one call reads exactly one typed line is observed by the end-to-end runs, not proved.  "
+          "_ask_user_input_blocking, modelled as reading and dropping one element of the typed-line list (one input() call in InputHandlerRequest._get_input); "
+          "the end-to-end runs compare the bytes written and the unread remainder of a fake stdin, and the blocked state on an open pipe, with that model.  "
+          "End of input (EOFError, read as an empty line by the code) is not a typed line and is outside the model.  "
           "The prompt printed after the content by the scheduler (InputManager.get_input) is modelled up to text_prompt; option descriptions and "
           "keys are strings.  Heights < 3 are outside the theorems (real height <= 0 loops forever asking: the model's out-of-fuel outcome)."),
     technique="Coq theorems over Gallina models of _print_widget / Prompt / WindowContainer + differential correspondence run against /repo")
@@ -229,7 +234,7 @@ def check_paging(chk, tier):
 
 
 # ------------------------------------------------------------------ (e) end to end with the real input
-_E2E_SCRIPT = r'''
+_E2E_SCRIPT = r"""
 import sys, io, json
 sys.dont_write_bytecode = True
 sys.path.insert(0, sys.argv[1])
@@ -241,12 +246,17 @@ class W(Widget):
         super().__init__(); self._ls = ls
     def get_lines(self):
         return list(self._ls)
-cases = json.loads(sys.stdin.read())
 App.initialize()
+if sys.argv[2] == "pipe":
+    # the typed lines come from the real stdin (a pipe that stays open): the run may block
+    n, H = int(sys.argv[3]), int(sys.argv[4])
+    UIScreen(screen_height=H)._print_widget(W(["l%d" % i for i in range(n)]))
+    sys.stdout.write("<<returned>>"); sys.stdout.flush()
+    sys.exit(0)
+cases = json.loads(sys.stdin.read())
 res = []
 real_out = sys.stdout
-for n, H in cases:
-    typed = ["typed %d" % i for i in range(n + 3)]
+for n, H, typed in cases:
     sys.stdin = io.StringIO("".join(t + "\n" for t in typed))
     out = io.StringIO()
     sys.stdout = out
@@ -257,46 +267,118 @@ for n, H in cases:
         st = "exc:" + type(e).__name__
     finally:
         sys.stdout = real_out
-    left = sys.stdin.read()
-    res.append([st, out.getvalue(), len(typed) - left.count("\n")])
+    res.append([st, out.getvalue(), sys.stdin.read()])
 real_out.write(json.dumps(res))
-'''
+"""
+
+TYPED_POOL = ["", "q", "c", "r", "any text", " ", "\t", "1", "yes please", "déjà vu", "ENTER", "  x  ", "\\n", "0"]
 
 
 def impl_e2e(cases):
-    p = subprocess.run([lib.PY, "-c", _E2E_SCRIPT, lib.REPO], input=json.dumps(cases), capture_output=True, text=True,
+    """cases: [(n, H, typed)] -> [[status, text written, text left unread on stdin]]"""
+    p = subprocess.run([lib.PY, "-c", _E2E_SCRIPT, lib.REPO, "batch"], input=json.dumps(cases), capture_output=True, text=True,
                        timeout=90, env=lib.ENV)
     if p.returncode != 0:
         return None, p.stderr[-800:]
     return json.loads(p.stdout), None
 
 
+def impl_e2e_pipe(n, H, typed, want_len, settle=0.7, limit=20.0):
+    """Run _print_widget reading an open pipe that delivers only `typed`; returns what it wrote before it stopped
+    writing (it is then killed), and whether it returned."""
+    import time
+    p = subprocess.Popen([lib.PY, "-c", _E2E_SCRIPT, lib.REPO, "pipe", str(n), str(H)], stdin=subprocess.PIPE,
+                         stdout=subprocess.PIPE, stderr=subprocess.DEVNULL, env=lib.ENV)
+    try:
+        p.stdin.write("".join(t + "\n" for t in typed).encode())
+        p.stdin.flush()
+        os.set_blocking(p.stdout.fileno(), False)
+        buf = b""
+        t0 = time.time()
+        last_change = t0
+        while time.time() - t0 < limit:
+            try:
+                chunk = p.stdout.read()
+            except BlockingIOError:
+                chunk = None
+            if chunk:
+                buf += chunk
+                last_change = time.time()
+            elif len(buf) >= want_len and time.time() - last_change > settle:
+                break               # got at least what the model expects and it has been quiet since
+            elif p.poll() is not None and not chunk:
+                break
+            time.sleep(0.05)
+    finally:
+        p.kill()
+        p.wait()
+    text = buf.decode()
+    returned = text.endswith("<<returned>>")
+    return text[:-len("<<returned>>")] if returned else text, returned
+
+
+def model_paging_in(cases):
+    """cases: [(n, H, typed)] -> [(text written, typed lines left, status)]"""
+    res = lib.model_run("paging", [[[cps("l%d" % i) for i in range(n)], H, [cps(t) for t in typed]] for n, H, typed in cases])
+    out = []
+    for evs, left, st in res:
+        text = "".join((uncps(e[1]) + "\n") if e[0] == 0 else (PRESS_ENTER if e[0] == 1 else "<<out of fuel>>") for e in evs)
+        out.append((text, [uncps(l) for l in left], st))
+    return out
+
+
 def check_e2e(chk, tier):
-    cases = [(n, H) for H in (3, 4, 5, 8) for n in (0, 1, H - 3, H - 2, H - 1, 2 * H - 4, 2 * H - 3, 3 * H)]
-    cases = [(n, H) for n, H in cases if n >= 0]
+    rng = chk.rng
+    shapes = [(n, H) for H in (3, 4, 5, 8) for n in (0, 1, H - 3, H - 2, H - 1, 2 * H - 4, 2 * H - 3, 3 * H)]
+    shapes = [(n, H) for n, H in shapes if n >= 0] + [(7, 4)]
     if tier != "quick":
-        cases += [(n, H) for H in range(4, 13) for n in range(0, 3 * H + 1, 2)]
+        shapes += [(n, H) for H in range(4, 13) for n in range(0, 3 * H + 1, 2)]
+    cases = []
+    for n, H in shapes:
+        asks = 0 if n == 0 else (n - 1) // (H - 2)
+        typed = [rng.choice(TYPED_POOL) for _ in range(asks + rng.choice([0, 0, 1, 2, 3]))]
+        cases.append((n, H, typed))
+    cases.append((7, 4, ["", "q", "any text"]))
+    cases.append((7, 4, ["any text", "any text", "", "q", ""]))
     try:
         res, err = impl_e2e(cases)
     except subprocess.TimeoutExpired:
         res, err = None, "timeout"
     if res is None:
         _viol(chk, "e2e-abnormal", "C12_paging_terminates: the end-to-end paging run did not finish: %s" % err,
-                      dict(kind="e2e", cases=cases), found=False)
+              dict(kind="e2e", cases=cases), found=False)
         return
-    model = model_paging([(["l%d" % i for i in range(n)], H) for n, H in cases])
-    for (n, H), (st, text, consumed), m in zip(cases, res, model):
+    model = model_paging_in(cases)
+    for (n, H, typed), (st, text, left), (mtext, mleft, mst) in zip(cases, res, model):
         chk.count()
-        want_text = "".join((e[1] + "\n") if e[0] == "P" else PRESS_ENTER for e in m)
-        want_consumed = sum(1 for e in m if e[0] == "ASK")
-        chk.hist("e2e:consumed=%s" % (consumed if consumed < 3 else "3+"))
-        case = dict(kind="e2e", n=n, H=H)
-        if want_consumed >= 1:
+        consumed = len(typed) - len(mleft)
+        want_left = "".join(t + "\n" for t in mleft)
+        chk.hist("e2e:consumed=%s" % (consumed if consumed < 3 else "3+")); chk.hist("e2e:left=%d" % len(mleft))
+        case = dict(kind="e2e", n=n, H=H, typed=typed)
+        if consumed >= 1:
             chk.nontriv(case)
-        if st != "done" or text != want_text or consumed != want_consumed:
-            _viol(chk, "e2e-paging", "C12_paging_pages/C12_paging_ask_count end to end: %d lines at height %d wrote %r and consumed %d typed lines; "
-                          "the proved model gives %r and %d" % (n, H, text[-120:], consumed, want_text[-120:], want_consumed),
-                          dict(case, impl=[st, text, consumed], model=[want_text, want_consumed]), found=True)
+        if st != "done" or mst != 0 or text != mtext or left != want_left:
+            key = "e2e-typed-lines" if (st == "done" and text == mtext) else "e2e-paging"
+            _viol(chk, key, "C12_paging_consumes_one_line_per_prompt end to end: %d lines at height %d with typed lines %r wrote %r and left %r "
+                  "unread; the proved model gives %r and %r" % (n, H, typed, text[-120:], left, mtext[-120:], want_left),
+                  dict(case, impl=[st, text, left], model=[mtext, want_left]), found=True)
+    chk.sample(dict(e2e=dict(n=7, H=4, typed=cases[-1][2], impl=res[-1])))
+    # fewer typed lines than prompts, stdin still open: the run must stop at a prompt having written exactly the
+    # pages before it (C12_paging_blocks_without_typed_line)
+    blocked = [(7, 4, ["q"]), (9, 5, [])]
+    if tier != "quick":
+        blocked += [(7, 4, []), (7, 4, ["", "x"]), (20, 6, ["a", "", "b"]), (4, 3, ["", ""])]
+    mb = model_paging_in(blocked)
+    for (n, H, typed), (mtext, mleft, mst) in zip(blocked, mb):
+        text, returned = impl_e2e_pipe(n, H, typed, len(mtext.encode()))
+        chk.count()
+        chk.hist("e2e-blocked")
+        case = dict(kind="e2e-blocked", n=n, H=H, typed=typed)
+        chk.nontriv(case)
+        if returned or mst != 1 or text != mtext or mleft:
+            _viol(chk, "e2e-blocked", "C12_paging_blocks_without_typed_line end to end: %d lines at height %d with only %r typed: returned=%s wrote %r; "
+                  "the proved model blocks after %r" % (n, H, typed, returned, text[-120:], mtext[-120:]),
+                  dict(case, impl=[returned, text], model=[mtext, mst]), found=True)
 
 
 # ------------------------------------------------------------------ (b) prompt
@@ -652,8 +734,17 @@ def replay(path):
         print("impl :", i[0], i[1]); print("model:", r.get("model"))
         return 0 if i[1] == r.get("model") else 1
     if k == "e2e":
-        res, err = impl_e2e([(r["n"], r["H"])])
-        print("impl :", res, err); print("model:", r.get("model"))
-        return 0 if res and res[0][1:] == r.get("model") else 1
+        c = (r["n"], r["H"], r.get("typed", ["typed %d" % i for i in range(r["n"] + 3)]))
+        res, err = impl_e2e([c])
+        mtext, mleft, mst = model_paging_in([c])[0]
+        want = ["done", mtext, "".join(t + "\n" for t in mleft)]
+        print("impl :", res, err); print("model:", want)
+        return 0 if res and res[0] == want else 1
+    if k == "e2e-blocked":
+        c = (r["n"], r["H"], r["typed"])
+        mtext, mleft, mst = model_paging_in([c])[0]
+        text, returned = impl_e2e_pipe(c[0], c[1], c[2], len(mtext.encode()))
+        print("impl :", returned, repr(text)); print("model:", mst, repr(mtext))
+        return 0 if (not returned and mst == 1 and text == mtext) else 1
     print("nothing to replay for kind", k)
     return 1
